@@ -625,7 +625,22 @@ class Interp:
         if target_body is not None:
             if target_body.kind == 'Closure':
                 return self.call_closure_body(target_body, args)
-            return self.exec_body(target_body, args)
+            # a generic crate function called with concrete integer-width arguments (load_array::<u128>, skalo::<u64>, ..):
+            # interpret its body under that width for the duration of the call (the arms of main dispatch on it)
+            pushed = None
+            gens = getattr(target_body, 'generics', None) or []
+            if gens and cal.gargs:
+                for gname, garg in zip(gens, cal.gargs):
+                    r = self.resolve_ty(garg)
+                    if gname == 'IntT' and r in ('u64', 'u128') and self.subst.get('IntT') != r:
+                        pushed = (self.subst.get('IntT'), self.subst.get('Self'))
+                        self.subst['IntT'] = r
+                        self.subst['Self'] = r
+            try:
+                return self.exec_body(target_body, args)
+            finally:
+                if pushed is not None:
+                    self.subst['IntT'], self.subst['Self'] = pushed
         # method-name fallbacks for generic library idioms
         short = name.split('::')[-1] if name else ''
         m = FALLBACK.get(short)
@@ -2766,3 +2781,4 @@ def m_par_collect(I, a, t, c):
 
 from . import models_io  # noqa: E402,F401  (registers formatting / output / concurrency models)
 from . import models_vcf  # noqa: E402,F401  (symbolic noodles_vcf builders)
+from . import models_std  # noqa: E402,F401
